@@ -233,7 +233,9 @@ func (f *Field[T]) Select(selector frontend.Variable, a, b *Element[T]) *Element
 			for i := range tail {
 				tail[i] = 0
 			}
-			return append(limbs, tail...)
+			// cap the slice: limbs may be a sub-slice of a larger backing array (e.g. the
+			// remainder inside the outputs of the multiplication hint) which append must not overwrite
+			return append(limbs[:len(limbs):len(limbs)], tail...)
 		}
 		return limbs
 	}
@@ -268,7 +270,9 @@ func (f *Field[T]) Lookup2(b0, b1 frontend.Variable, a, b, c, d *Element[T]) *El
 			for i := range tail {
 				tail[i] = 0
 			}
-			return append(limbs, tail...)
+			// cap the slice: limbs may be a sub-slice of a larger backing array (e.g. the
+			// remainder inside the outputs of the multiplication hint) which append must not overwrite
+			return append(limbs[:len(limbs):len(limbs)], tail...)
 		}
 		return limbs
 	}
@@ -309,7 +313,9 @@ func (f *Field[T]) Mux(sel frontend.Variable, inputs ...*Element[T]) *Element[T]
 			for i := range tail {
 				tail[i] = 0
 			}
-			return append(limbs, tail...)
+			// cap the slice: limbs may be a sub-slice of a larger backing array (e.g. the
+			// remainder inside the outputs of the multiplication hint) which append must not overwrite
+			return append(limbs[:len(limbs):len(limbs)], tail...)
 		}
 		return limbs
 	}
